@@ -74,6 +74,15 @@ RequestedKeptFails(CT, tps, pre, args) ==
   (\A j \in DOMAIN tps : PreConsistent(CT, tps, want, j))
   /\ (\E i \in DOMAIN tps : (tps[i].n \in DOMAIN pre) /\ (args[i] # pre[tps[i].n])
                               /\ ~(args[i].k = "W" /\ pre[tps[i].n].k # "W" /\ Core1(args[i]) = pre[tps[i].n]))
+\* The caller's options of instantiate_type_constructor, opt = [isfun, pecs, dvf, dv]: disable_variance (dv) "overrides all previous
+\* options", disable_variance_functions (dvf) does so for function types, and for a function type with enable_pecs the helper's own
+\* producer-extends / consumer-super choices replace the caller's (parameters may be contravariant, the result covariant).
+DefaultOpt == [isfun |-> FALSE, pecs |-> TRUE, dvf |-> FALSE, dv |-> FALSE]
+EffChoices(tps, choices, opt) ==
+  LET names == {tps[i].n : i \in DOMAIN tps} IN
+  IF opt.dv \/ (opt.dvf /\ opt.isfun) THEN [on |-> TRUE, m |-> [x \in names |-> <<FALSE, FALSE>>]]
+  ELSE IF opt.pecs /\ opt.isfun /\ tps # <<>> THEN [on |-> TRUE, m |-> [x \in names |-> IF x = tps[Len(tps)].n THEN <<TRUE, FALSE>> ELSE <<FALSE, TRUE>>]]
+  ELSE choices
 ProjectionFails(tps, pre, choices, sw, args, i) ==
   (args[i].k = "W") /\ ~(tps[i].n \in DOMAIN pre /\ pre[tps[i].n] = args[i]) /\ ~Allowed(tps, choices, sw, i, args[i].n)
 \* projections among the type arguments of t (the bound a type-variable term carries along is not part of the type written here)
